@@ -42,6 +42,10 @@ type Thread struct {
 
 type abortT struct{}
 
+// IsAbort reports whether a recovered panic value is the scheduler's unwind sentinel (harness
+// code that recovers panics of the code under test must re-panic it).
+func IsAbort(r any) bool { _, ok := r.(abortT); return ok }
+
 // PointKind distinguishes scheduling points from environment choices.
 type PointKind uint8
 
